@@ -602,6 +602,12 @@ func genCase(t *rapid.T) caseA {
 		c.Hostile = rapid.SampledFrom(neighbours).Draw(t, "neighbour")
 		c.Sidecar = rapid.Bool().Draw(t, "neighbour_sidecar")
 	}
+	if rapid.IntRange(0, 15).Draw(t, "staging_listing") == 0 {
+		// a listing aimed into the staging area (the walk of each listing has its own way of skipping it)
+		c.Param = "prefix"
+		c.Spec.Op = rapid.SampledFrom([]string{"ListObjects", "ListObjectsV2", "ListObjectVersions", "ListObjectVersions", "ListMultipartUploads"}).Draw(t, "staging_listing_op")
+		c.Hostile = rapid.SampledFrom([]string{".sgwtmp/multipart/", ".sgwtmp/multipart/", ".sgwtmp/", ".sgwtmp/multipart", ".sgwtmp/m", "{mp1part}", "/.sgwtmp/multipart/"}).Draw(t, "staging_listing_prefix")
+	}
 	c.Spelling = rapid.SampledFrom([]string{"plain", "plain", "raw", "raw", "pct", "pct-lower", "double", "mixed"}).Draw(t, "spelling")
 	c.Dup = rapid.SampledFrom([]int{0, 0, 0, 1, 2}).Draw(t, "dup")
 	return c
